@@ -236,7 +236,25 @@ func (e *Engine) mergeVal(g string, a, b Val, sa, sb *State, what string) Val {
 		}
 	case AddrV:
 		if y, ok := b.(AddrV); ok && x.Cell == y.Cell && pathKey(x.Path) == pathKey(y.Path) {
-			return x
+			if x.Nil == "" && y.Nil == "" {
+				return x
+			}
+			nx, ny := x.Nil, y.Nil
+			if nx == "" {
+				nx = "false"
+			}
+			if ny == "" {
+				ny = "false"
+			}
+			return AddrV{Cell: x.Cell, Path: x.Path, Nil: ite(g, nx, ny)}
+		}
+		// the address of a variable or field merged with a nil pointer (`return &x.f, nil` / `return nil, err`)
+		if isNilPtrVal(b) {
+			nx := x.Nil
+			if nx == "" {
+				nx = "false"
+			}
+			return AddrV{Cell: x.Cell, Path: x.Path, Nil: ite(g, nx, "true")}
 		}
 	case ElemAddrV:
 		if y, ok := b.(ElemAddrV); ok && x.Arr == y.Arr && pathKey(x.Path) == pathKey(y.Path) {
@@ -262,6 +280,13 @@ func (e *Engine) mergeVal(g string, a, b Val, sa, sb *State, what string) Val {
 			return ElemAddrV{Arr: x.Arr, Idx: x.Idx, Path: x.Path, Nil: ite(g, nx, "true")}
 		}
 	case PtrV:
+		if y, ok := b.(AddrV); ok && x.Nil == "true" {
+			ny := y.Nil
+			if ny == "" {
+				ny = "false"
+			}
+			return AddrV{Cell: y.Cell, Path: y.Path, Nil: ite(g, "true", ny)}
+		}
 		if y, ok := b.(ElemAddrV); ok && x.Nil == "true" {
 			ny := y.Nil
 			if ny == "" {
@@ -273,11 +298,11 @@ func (e *Engine) mergeVal(g string, a, b Val, sa, sb *State, what string) Val {
 			nilT := ite(g, x.Nil, y.Nil)
 			switch {
 			case x.Cell == y.Cell && x.Name == y.Name:
-				return PtrV{Nil: nilT, Cell: x.Cell, Elem: x.Elem, Name: x.Name}
+				return PtrV{Nil: nilT, Cell: x.Cell, Elem: x.Elem, Name: x.Name, Cands: x.Cands}
 			case x.Nil == "true":
-				return PtrV{Nil: nilT, Cell: y.Cell, Elem: y.Elem, Name: y.Name}
+				return PtrV{Nil: nilT, Cell: y.Cell, Elem: y.Elem, Name: y.Name, Cands: y.Cands}
 			case y.Nil == "true":
-				return PtrV{Nil: nilT, Cell: x.Cell, Elem: x.Elem, Name: x.Name}
+				return PtrV{Nil: nilT, Cell: x.Cell, Elem: x.Elem, Name: x.Name, Cands: x.Cands}
 			case x.Cell != nil && y.Cell != nil && e.mergeOut != nil && types.Identical(x.Elem, y.Elem):
 				// two different objects: merge them into one object (sound when neither is referenced elsewhere,
 				// which holds for the `opts = &T{...}` idiom; counted as an assumption)
@@ -294,7 +319,7 @@ func (e *Engine) mergeVal(g string, a, b Val, sa, sb *State, what string) Val {
 				// pointers to two different objects whose contents cannot be merged: keep only the nil-ness;
 				// a later dereference makes the function undecided (see materialise)
 				e.nfresh++
-				return PtrV{Nil: nilT, Elem: x.Elem, Name: fmt.Sprintf("mergedptr!%d", e.nfresh)}
+				return PtrV{Nil: nilT, Elem: x.Elem, Name: fmt.Sprintf("mergedptr!%d", e.nfresh), Cands: append(e.candCells(x), e.candCells(y)...)}
 			}
 		}
 	case FuncV:
@@ -350,4 +375,34 @@ func (e *Engine) mergeVal(g string, a, b Val, sa, sb *State, what string) Val {
 		}
 	}
 	panic(mergeFail{why: fmt.Sprintf("cannot merge %T with %T (%s)", a, b, what)})
+}
+
+// candCells lists the objects a pointer may point to (for pointers merged from several objects).
+func (e *Engine) candCells(p PtrV) []*Cell {
+	switch {
+	case p.Cell != nil:
+		return []*Cell{p.Cell}
+	case len(p.Cands) > 0:
+		return p.Cands
+	case p.Nil == "true":
+		return nil
+	}
+	c := e.ptrCell[p.Name]
+	if c == nil {
+		c = e.newCell(p.Elem, p.Name)
+		e.ptrCell[p.Name] = c
+	}
+	return []*Cell{c}
+}
+
+func isNilPtrVal(v Val) bool {
+	switch o := v.(type) {
+	case PtrV:
+		return o.Nil == "true"
+	case OptV:
+		return o.Nil == "true" && o.Cell == nil
+	case OpaqueV:
+		return o.T == "nilU"
+	}
+	return false
 }
